@@ -21,6 +21,7 @@
 //	fibCallsInLoop many of them sit inside a loop (a RIB mutation installs its FIB changes through exactly
 //	              ONE call outside any loop = one inner critical section; a RIB listing makes none)
 //	callsRib      the method (transitively) mentions the identifier Rib (lock order: RIB -> FIB only)
+//	ptrRecv       the method has a pointer receiver (a value receiver would lock a COPY of the table's mutex)
 //
 // For the NLSR readvertiser (fw/mgmt/nlsr_readvertiser.go: Announce/Withdraw run INSIDE the RIB critical
 // section, on whatever goroutine changes the RIB) a second table `readvertiser` records, per exported
@@ -65,6 +66,15 @@ func recvType(d *ast.FuncDecl) string {
 		return id.Name
 	}
 	return ""
+}
+
+// ptrRecv: the method has a pointer receiver (a value receiver copies the table, and with it its mutex)
+func ptrRecv(d *ast.FuncDecl) bool {
+	if d.Recv == nil || len(d.Recv.List) == 0 {
+		return false
+	}
+	_, ok := d.Recv.List[0].Type.(*ast.StarExpr)
+	return ok
 }
 
 func recvName(d *ast.FuncDecl) string {
@@ -327,13 +337,77 @@ func readvertiserFacts(repo string) string {
 				}
 				return true
 			})
-			rows = append(rows, fmt.Sprintf("  ⟨%q, %q, %q, %v, %d, %d, %d, %d, %d, %d, %v⟩", "NlsrReadvertiser", fd.Name.Name, lock, deferOK, f.writes, f.live, f.lockOps, f.reentrant, f.fibCalls, f.fibCallsInLoop, f.callsRib))
+			rows = append(rows, fmt.Sprintf("  ⟨%q, %q, %q, %v, %d, %d, %d, %d, %d, %d, %v, %v⟩", "NlsrReadvertiser", fd.Name.Name, lock, deferOK, f.writes, f.live, f.lockOps, f.reentrant, f.fibCalls, f.fibCallsInLoop, f.callsRib, ptrRecv(fd)))
 		}
 	}
 	sort.Strings(rows)
 	sb.WriteString(strings.Join(rows, ",\n"))
 	sb.WriteString("\n]\n")
 	return sb.String()
+}
+
+// mgmtHandlerFacts: for every command / dataset handler of the management modules that touch the shared
+// tables (fw/mgmt/rib.go, fib.go, strategy-choice.go: methods taking (interest, pitToken, inFace)), the
+// number of MUTATING calls it makes into table.Rib / table.FibStrategyTable (fibCalls) and how many of them
+// sit in a loop (fibCallsInLoop). One management command must be ONE table operation: a command implemented
+// as two table operations (e.g. re-registration as remove + add) exposes the state between them to lookups.
+func mgmtHandlerFacts(repo string) string {
+	mut := map[string]bool{"AddEncRoute": true, "RemoveRouteEnc": true, "CleanUpFace": true, "InsertNextHopEnc": true,
+		"RemoveNextHopEnc": true, "ClearNextHopsEnc": true, "ReplaceNextHopsEnc": true, "SetStrategyEnc": true, "UnSetStrategyEnc": true}
+	var rows []string
+	for _, file := range []string{"rib.go", "fib.go", "strategy-choice.go"} {
+		fset := token.NewFileSet()
+		f, err := parser.ParseFile(fset, filepath.Join(repo, "fw", "mgmt", file), nil, 0)
+		if err != nil {
+			continue
+		}
+		for _, d := range f.Decls {
+			fd, ok := d.(*ast.FuncDecl)
+			if !ok || fd.Body == nil || recvType(fd) == "" || fd.Type.Params == nil || len(fd.Type.Params.List) < 3 {
+				continue
+			}
+			if fd.Name.Name == "handleIncomingInterest" {
+				continue // the verb dispatcher: calls exactly one handler
+			}
+			type span struct{ lo, hi token.Pos }
+			var loops []span
+			ast.Inspect(fd.Body, func(n ast.Node) bool {
+				switch x := n.(type) {
+				case *ast.ForStmt:
+					loops = append(loops, span{x.Body.Pos(), x.Body.End()})
+				case *ast.RangeStmt:
+					loops = append(loops, span{x.Body.Pos(), x.Body.End()})
+				}
+				return true
+			})
+			calls, inLoop := 0, 0
+			ast.Inspect(fd.Body, func(n ast.Node) bool {
+				c, ok := n.(*ast.CallExpr)
+				if !ok {
+					return true
+				}
+				sel, ok := c.Fun.(*ast.SelectorExpr)
+				if !ok || !mut[sel.Sel.Name] {
+					return true
+				}
+				if inner, ok := sel.X.(*ast.SelectorExpr); ok {
+					if pk, ok := inner.X.(*ast.Ident); ok && pk.Name == "table" && (inner.Sel.Name == "Rib" || inner.Sel.Name == "FibStrategyTable") {
+						calls++
+						for _, l := range loops {
+							if l.lo <= c.Pos() && c.Pos() < l.hi {
+								inLoop++
+								break
+							}
+						}
+					}
+				}
+				return true
+			})
+			rows = append(rows, fmt.Sprintf("  ⟨%q, %q, %q, %v, %d, %d, %d, %d, %d, %d, %v, %v⟩", recvType(fd), fd.Name.Name, "none", false, 0, 0, 0, 0, calls, inLoop, false, ptrRecv(fd)))
+		}
+	}
+	sort.Strings(rows)
+	return "def mgmtHandlers : List MethodFact := [\n" + strings.Join(rows, ",\n") + "\n]\n"
 }
 
 func main() {
@@ -379,7 +453,7 @@ func main() {
 	}
 	var sb strings.Builder
 	sb.WriteString("/- GENERATED by harness/cmd/lockfacts from the working tree on every run of ./check C16. Do not edit. -/\n")
-	sb.WriteString("namespace Ndn.Gen.C16\n\nstructure MethodFact where\n  typ : String\n  name : String\n  lock : String\n  deferUnlock : Bool\n  sharedWrites : Nat\n  returnsLive : Nat\n  lockOps : Nat\n  reentrant : Nat\n  fibCalls : Nat\n  fibCallsInLoop : Nat\n  callsRib : Bool\nderiving Repr, DecidableEq\n\ndef methods : List MethodFact := [\n")
+	sb.WriteString("namespace Ndn.Gen.C16\n\nstructure MethodFact where\n  typ : String\n  name : String\n  lock : String\n  deferUnlock : Bool\n  sharedWrites : Nat\n  returnsLive : Nat\n  lockOps : Nat\n  reentrant : Nat\n  fibCalls : Nat\n  fibCallsInLoop : Nat\n  callsRib : Bool\n  ptrRecv : Bool\nderiving Repr, DecidableEq\n\ndef methods : List MethodFact := [\n")
 	for i, m := range methods {
 		d := m.decl
 		rn := recvName(d)
@@ -404,10 +478,12 @@ func main() {
 		if i == len(methods)-1 {
 			sep = ""
 		}
-		fmt.Fprintf(&sb, "  ⟨%q, %q, %q, %v, %d, %d, %d, %d, %d, %d, %v⟩%s\n", m.recv, d.Name.Name, lock, deferOK, f.writes, f.live, f.lockOps, f.reentrant, f.fibCalls, f.fibCallsInLoop, f.callsRib, sep)
+		fmt.Fprintf(&sb, "  ⟨%q, %q, %q, %v, %d, %d, %d, %d, %d, %d, %v, %v⟩%s\n", m.recv, d.Name.Name, lock, deferOK, f.writes, f.live, f.lockOps, f.reentrant, f.fibCalls, f.fibCallsInLoop, f.callsRib, ptrRecv(d), sep)
 	}
 	sb.WriteString("]\n\n")
 	sb.WriteString(readvertiserFacts(repo))
+	sb.WriteString("\n")
+	sb.WriteString(mgmtHandlerFacts(repo))
 	sb.WriteString("\nend Ndn.Gen.C16\n")
 	old, _ := os.ReadFile(out)
 	if string(old) != sb.String() {
